@@ -114,12 +114,15 @@ def gen_T(r, n):
     return r.randint(1, n)
 
 
-def gen_schedule(r, T, prob=0.3):
+def gen_schedule(r, T, prob=0.3, mid_prob=0.0):
     if r.random() > prob or T < 1:
         return []
     out = []
     for _ in range(r.randint(1, 6)):
-        out.append({"after": r.randint(1, T), "times": r.randint(1, 5) if r.random() < 0.3 else 1})
+        e = {"after": r.randint(1, T), "times": r.randint(1, 5) if r.random() < 0.3 else 1}
+        if mid_prob and r.random() < mid_prob:
+            e["mid"] = True     # between the pull and the receive_reward of that round
+        out.append(e)
     return out
 
 
@@ -216,7 +219,7 @@ def gen_algo_params(r, algo, part, d, n=None, *, ok_only=False, cap_mode="any"):
 
 
 def base_scenario(r, seed, algo, *, parts=None, dmax=3, n=None, T=None, real_prob=0.3, faults=True,
-                  reward_kinds=None, ok_only=False, cap_mode="any", sched_prob=0.0, labels=False, base=None):
+                  reward_kinds=None, ok_only=False, cap_mode="any", sched_prob=0.0, labels=False, base=None, mid_prob=0.0):
     part = gen_partition(r, parts)
     dom = gen_domain(r, dmax)
     d = len(dom)
@@ -231,7 +234,7 @@ def base_scenario(r, seed, algo, *, parts=None, dmax=3, n=None, T=None, real_pro
     sc["rounds"] = T if T is not None else gen_T(r, n)
     sc["rewards"] = gen_rewards(r, reward_kinds, seed)
     sc["rng"] = gen_rng(r, seed, real_prob, faults)
-    sc["schedule"] = gen_schedule(r, sc["rounds"], sched_prob)
+    sc["schedule"] = gen_schedule(r, sc["rounds"], sched_prob, mid_prob)
     if labels:
         sc["labels"] = r.choice([{"scheme": "one"}, {"scheme": "zero"}, {"scheme": "offset", "offset": 17},
                                  {"scheme": "gaps", "seed": seed, "start": r.randint(0, 3)}])
